@@ -49,6 +49,9 @@ def cases(tier, rng):
         out.append(("random", src))
     for _ in range(600 if tier == "quick" else 15000):
         out.append(("fragment", frag_program(rng.fork())))
+    # layout never matters: the same programs with comments (ASCII and multi-byte text) and blank lines woven in
+    for label, src in [c for c in out if c[0] == "random"][: (300 if tier == "quick" else 8000)]:
+        out.append(("random-commented", decorate(rng, src)))
     from .. import gen2
     from . import C03
     for _ in range(150 if tier == "quick" else 4000):
@@ -56,6 +59,20 @@ def cases(tier, rng):
         out.append(("nested-fn", gen2.nested_fn_program(rng.fork())))
         out.append(("heap-shapes", C03.heap_program(rng.fork())))
     return out
+
+
+COMMENTS = ["// c", "//", "// één → 😀 日本語", "//é", "// \"tekst\" { } stel x = 1", "//// ", "// ë"]
+
+
+def decorate(rng, src):
+    """append line comments to lines, insert comment-only and blank lines (generated programs never break a line
+    inside a string literal, so every line end is a token boundary)"""
+    out = []
+    for l in src.split("\n"):
+        if rng.chance(1, 4):
+            out.append(rng.pick(["", "  " + rng.pick(COMMENTS), "\t"]))
+        out.append(l + (" " + rng.pick(COMMENTS) if rng.chance(1, 3) else ""))
+    return "\n".join(out) + "\n" + rng.pick(COMMENTS)
 
 
 def frag_program(rng):
